@@ -57,8 +57,9 @@ func vhOptBytes(name string, max int) []byte {
 	return verifrt.Bytes(name, c-1)
 }
 
-// vhPass hands out the byte fields that the conversions only copy. One choice fixes the
-// shape of all of them: all nil / all empty / all 2 arbitrary bytes / alternating nil and 1 byte.
+// vhPass hands out the byte fields that the conversions only copy (they never influence
+// control flow). One choice fixes the shape of all of them: shape 0 = all nil; shape 1 =
+// the fields cycle through 2 arbitrary bytes / empty / nil / 1 arbitrary byte.
 type vhPass struct {
 	tag   string
 	shape int
@@ -66,20 +67,20 @@ type vhPass struct {
 }
 
 func newVhPass(tag string) *vhPass {
-	return &vhPass{tag: tag, shape: verifrt.Choose(tag+"pass#shape", 4)}
+	return &vhPass{tag: tag, shape: verifrt.Choose(tag+"pass#shape", 2)}
 }
 
 func (p *vhPass) next(name string) []byte {
 	p.n++
-	switch p.shape {
-	case 0:
+	if p.shape == 0 {
 		return nil
-	case 1:
-		return []byte{}
-	case 2:
-		return verifrt.Bytes(p.tag+name, 2)
 	}
-	if p.n%2 == 0 {
+	switch p.n % 4 {
+	case 1:
+		return verifrt.Bytes(p.tag+name, 2)
+	case 2:
+		return []byte{}
+	case 3:
 		return nil
 	}
 	return verifrt.Bytes(p.tag+name, 1)
@@ -130,12 +131,13 @@ func vhArbCommitProof(name string, maxEntries, hashMax, sigMax int) jsonCommitPr
 	}
 }
 
-// key encodings offered to the registry inside the larger structures:
-// nil, 3 bytes (shorter than the prefix), exactly 8, 10 bytes (all arbitrary).
-var vhKeyShapes = []int{-1, 3, 8, 10}
+// key encodings offered to the registry inside the larger structures: nil, 3 bytes (shorter
+// than the prefix), 10 bytes, and (proposer key only) exactly 8 bytes; all bytes arbitrary.
+// Every length 0..10 is covered by VH_C14_Tot_Validator and VH_C14_RegistryUnmarshal.
+var vhKeyShapes = []int{-1, 3, 10, 8}
 
-func vhArbKeyBytes(name string) []byte {
-	n := vhKeyShapes[verifrt.Choose(name+"#keyshape", len(vhKeyShapes))]
+func vhArbKeyBytes(name string, shapes int) []byte {
+	n := vhKeyShapes[verifrt.Choose(name+"#keyshape", shapes)]
 	if n < 0 {
 		return nil
 	}
@@ -150,20 +152,23 @@ func vhArbValidators(name string, max int) []jsonValidator {
 	out := make([]jsonValidator, c-1)
 	for i := range out {
 		nm := name + string(rune('0'+i))
-		out[i] = jsonValidator{PubKey: vhArbKeyBytes(nm + "-pk"), Power: verifrt.U64(nm + "-pow")}
+		out[i] = jsonValidator{PubKey: vhArbKeyBytes(nm+"-pk", 3), Power: verifrt.U64(nm + "-pow")}
 	}
 	return out
 }
 
 // ---- well-formed values for the round trips
 
-// vhGoodKey: a registered key with 0..2 arbitrary key bytes (type chosen).
+// vhGoodKey: a registered key: vhkey with no key bytes / vhkey with 2 arbitrary bytes /
+// ed25519 with 3 arbitrary bytes.
 func vhGoodKey(name string) gcrypto.PubKey {
-	b := verifrt.Bytes(name, verifrt.Choose(name+"#len", 3))
-	if verifrt.Choose(name+"#type", 2) == 0 {
-		return vhKey(b)
+	switch verifrt.Choose(name+"#kind", 3) {
+	case 0:
+		return vhKey([]byte{})
+	case 1:
+		return vhKey(verifrt.Bytes(name, 2))
 	}
-	return gcrypto.Ed25519PubKey(b)
+	return gcrypto.Ed25519PubKey(verifrt.Bytes(name, 3))
 }
 
 func vhGoodValSet(name string, max int, p *vhPass) tmconsensus.ValidatorSet {
@@ -183,11 +188,11 @@ func vhGoodValSet(name string, max int, p *vhPass) tmconsensus.ValidatorSet {
 	return vs
 }
 
-func vhGoodSigs(name string) []gcrypto.SparseSignature {
-	switch verifrt.Choose(name+"#sigs", 3) {
-	case 0:
-		return nil
+func vhGoodSigs(name string, shapes int) []gcrypto.SparseSignature {
+	switch verifrt.Choose(name+"#sigs", shapes) {
 	case 1:
+		return nil
+	case 2:
 		return []gcrypto.SparseSignature{}
 	}
 	return []gcrypto.SparseSignature{
@@ -214,7 +219,11 @@ func vhGoodProofs(name string, max int) map[string][]gcrypto.SparseSignature {
 		}
 		_, dup := m[k]
 		verifrt.Assume(!dup)
-		m[k] = vhGoodSigs(nm)
+		if i == 0 {
+			m[k] = vhGoodSigs(nm, 3) // two signatures / nil / empty
+		} else {
+			m[k] = vhGoodSigs(nm, 1)
+		}
 	}
 	return m
 }
@@ -225,7 +234,7 @@ func vhGoodCommitProof(name string, max int) tmconsensus.CommitProof {
 	}
 	return tmconsensus.CommitProof{
 		Round:      verifrt.U32(name + "-round"),
-		PubKeyHash: string(verifrt.Bytes(name+"-pkh", verifrt.Choose(name+"-pkh#len", 3))),
+		PubKeyHash: string(verifrt.Bytes(name+"-pkh", 2*verifrt.Choose(name+"-pkh#len", 2))),
 		Proofs:     vhGoodProofs(name+"-p", max),
 	}
 }
